@@ -37,6 +37,9 @@ type Event struct {
 	Slice string `json:"slice"`
 	Conn  int    `json:"conn"`
 	SQL   string `json:"sql,omitempty"`
+	// Failed: the environment answered this Execute with "the connection broke" (error
+	// returned, connection closed) — see Ledger.FailNextExec
+	Failed bool `json:"failed,omitempty"`
 }
 
 // Ledger records the events of one namespace (one namespace is used by one worker at a time).
@@ -44,6 +47,33 @@ type Ledger struct {
 	mu     sync.Mutex
 	events []Event
 	nextID int
+	// failNext: the next Execute on any fake connection of this ledger fails like a broken
+	// socket / a connection killed by max_sql_execute_time: error + connection closed
+	failNext bool
+}
+
+// FailNextExec arms the fault answer for the next Execute of this ledger's connections.
+func (l *Ledger) FailNextExec() {
+	l.mu.Lock()
+	l.failNext = true
+	l.mu.Unlock()
+}
+
+// Disarm clears an unused fault answer and reports whether it was still armed.
+func (l *Ledger) Disarm() bool {
+	l.mu.Lock()
+	a := l.failNext
+	l.failNext = false
+	l.mu.Unlock()
+	return a
+}
+
+func (l *Ledger) takeFault() bool {
+	l.mu.Lock()
+	a := l.failNext
+	l.failNext = false
+	l.mu.Unlock()
+	return a
 }
 
 func (l *Ledger) add(e Event) {
@@ -126,6 +156,15 @@ func (c *conn) Close()                { c.closed = true; c.ev("close", "") }
 func (c *conn) IsClosed() bool        { return c.closed }
 func (c *conn) UseDB(db string) error { c.ev("usedb", db); return nil }
 func (c *conn) Execute(sql string, maxRows int) (*mysql.Result, error) {
+	if c.p.led.takeFault() {
+		// the connection is closed and an error handed up
+		c.p.led.add(Event{Op: "exec", Class: c.p.class, Slice: c.p.slice, Conn: c.id, SQL: sql, Failed: true})
+		c.closed = true
+		// a plain error, as on the max_sql_execute_time path (connection closed, "execution
+		// timed out"); mysql.ErrBadConn would additionally make the proxy close the client
+		// session, after which nothing can follow
+		return nil, fmt.Errorf("fake backend: connection lost while executing")
+	}
 	c.ev("exec", sql)
 	return &mysql.Result{Status: mysql.ServerStatusAutocommit}, nil
 }
@@ -568,6 +607,15 @@ func (s *Sess) Do(cmd byte, payload []byte) Reply {
 }
 
 func (s *Sess) Query(sql string) Reply { return s.Do(mysql.ComQuery, []byte(sql)) }
+
+// QueryBackendBreaks sends sql while the environment answers the statement's first backend
+// Execute with a broken connection. consumed=false: the statement never reached a backend.
+func (s *Sess) QueryBackendBreaks(sql string) (r Reply, consumed bool) {
+	led := s.w.ledgers[s.NS]
+	led.FailNextExec()
+	r = s.Do(mysql.ComQuery, []byte(sql))
+	return r, !led.Disarm()
+}
 
 // Prepare sends COM_STMT_PREPARE; ok=false when the proxy answered with an error.
 func (s *Sess) Prepare(sql string) (id uint32, params int, r Reply) {
